@@ -162,9 +162,25 @@ func findSniExtension(search quicutils.Locator) (d string, err error) {
 				// An SNI value may not include a trailing dot.
 				// https://tools.ietf.org/html/rfc6066#section-3
 				// But we accept it here.
+				if !isPlausibleSniHostName(b) {
+					// Not a DNS host name (RFC 6066 section 3): do not let the generic
+					// host:port / bracket normalisation turn it into a different name.
+					return "", ErrNotFound
+				}
 				return strings.TrimSuffix(string(b), "."), nil
 			}
 		}
 		i = iNextField
 	}
+}
+
+// isPlausibleSniHostName rejects SNI values carrying bytes that NormalizeDomain would strip or split on
+// (white space, control bytes, ':' , '[' , ']'), which can never be part of a DNS host name.
+func isPlausibleSniHostName(b []byte) bool {
+	for _, c := range b {
+		if c <= 0x20 || c == 0x7f || c == ':' || c == '[' || c == ']' {
+			return false
+		}
+	}
+	return true
 }
